@@ -17,128 +17,8 @@ set_option linter.unusedSectionVars false
 namespace Hfsm
 variable {U : Type} [UtilArith U]
 
-/-! ### the tree a request pass returns does not depend on the queue index either -/
-
-mutual
-theorem Node.request_treeK : (n : Node) → n.Plain = true → (rq1 rq2 : Req) → rq1.kind = rq2.kind →
-    rq1.kind.plain = true → rq1.kind ≠ .schedule → (w1 w2 : World U) → (n.request rq1 w1).1 = (n.request rq2 w2).1
-  | .leaf id inj, _, rq1, rq2, _, _, _, w1, w2 => by simp only [Node.request]
-  | .ortho id rid inj h s, hp, rq1, rq2, he, hk, hn, w1, w2 => by
-    simp only [Node.Plain] at hp
-    simp only [Node.request]
-    rw [Subs.requestAll_treeK s hp rq1 rq2 he hk hn _ (w2.pin id rq2.index)]
-  | .compo id rid inj h st a r q m s, hp, rq1, rq2, he, hk, hn, w1, w2 => by
-    simp only [Node.Plain, Bool.and_eq_true] at hp
-    simp only [Node.request]
-    rw [← he]
-    rcases effectiveKind_plain hp.1 hk hn with hq | hq
-    · simp only [hq]
-      rw [Subs.requestAt_treeK s hp.2 0 rq1 rq2 he hk hn _ (w2.pin id rq2.index)]
-    · simp only [hq]
-      rw [Subs.requestAt_treeK s hp.2 (r.getD 0) rq1 rq2 he hk hn _ (w2.pin id rq2.index)]
-theorem Subs.requestAt_treeK : (s : Subs) → s.PlainAll = true → (i : Nat) → (rq1 rq2 : Req) → rq1.kind = rq2.kind →
-    rq1.kind.plain = true → rq1.kind ≠ .schedule → (w1 w2 : World U) →
-    (s.requestAt i rq1 w1).1 = (s.requestAt i rq2 w2).1
-  | .nil, _, _, rq1, rq2, _, _, _, w1, w2 => by simp only [Subs.requestAt]
-  | .cons b n r, hp, 0, rq1, rq2, he, hk, hn, w1, w2 => by
-    simp only [Subs.PlainAll, Bool.and_eq_true] at hp
-    simp only [Subs.requestAt]; rw [Node.request_treeK n hp.1 rq1 rq2 he hk hn w1 w2]
-  | .cons b n r, hp, i+1, rq1, rq2, he, hk, hn, w1, w2 => by
-    simp only [Subs.PlainAll, Bool.and_eq_true] at hp
-    simp only [Subs.requestAt]; rw [Subs.requestAt_treeK r hp.2 i rq1 rq2 he hk hn w1 w2]
-theorem Subs.requestAll_treeK : (s : Subs) → s.PlainAll = true → (rq1 rq2 : Req) → rq1.kind = rq2.kind →
-    rq1.kind.plain = true → rq1.kind ≠ .schedule → (w1 w2 : World U) →
-    (s.requestAll rq1 w1).1 = (s.requestAll rq2 w2).1
-  | .nil, _, rq1, rq2, _, _, _, w1, w2 => by simp only [Subs.requestAll]
-  | .cons b n r, hp, rq1, rq2, he, hk, hn, w1, w2 => by
-    simp only [Subs.PlainAll, Bool.and_eq_true] at hp
-    simp only [Subs.requestAll]
-    rw [Node.request_treeK n hp.1 rq1 rq2 he hk hn w1 w2,
-      Subs.requestAll_treeK r hp.2 rq1 rq2 he hk hn _ (n.request rq2 w2).2]
-end
-
-mutual
-theorem Node.fwdRequest_treeK : (n : Node) → n.Plain = true → (rq1 rq2 : Req) → rq1.kind = rq2.kind →
-    rq1.kind.plain = true → rq1.kind ≠ .schedule → (w1 w2 : World U) →
-    (n.fwdRequest rq1 w1).1 = (n.fwdRequest rq2 w2).1
-  | .leaf id inj, _, rq1, rq2, _, _, _, w1, w2 => by simp only [Node.fwdRequest]
-  | .compo id rid inj h st a r q m s, hp, rq1, rq2, he, hk, hn, w1, w2 => by
-    cases q with
-    | some qi =>
-      simp only [Node.Plain, Bool.and_eq_true] at hp
-      simp only [Node.fwdRequest]
-      rw [Subs.fwdRequestAt_treeK s hp.2 qi rq1 rq2 he hk hn _ (w2.pin id rq2.index)]
-    | none =>
-      simp only [Node.fwdRequest]
-      exact Node.request_treeK _ hp rq1 rq2 he hk hn _ _
-  | .ortho id rid inj h s, hp, rq1, rq2, he, hk, hn, w1, w2 => by
-    simp only [Node.fwdRequest]
-    split
-    · simp only [Node.Plain] at hp
-      dsimp only
-      rw [Subs.fwdRequestAll_treeK s hp rq1 rq2 he hk hn _ (w2.pin id rq2.index)]
-    · exact Node.request_treeK _ hp rq1 rq2 he hk hn _ _
-theorem Subs.fwdRequestAt_treeK : (s : Subs) → s.PlainAll = true → (i : Nat) → (rq1 rq2 : Req) →
-    rq1.kind = rq2.kind → rq1.kind.plain = true → rq1.kind ≠ .schedule → (w1 w2 : World U) →
-    (s.fwdRequestAt i rq1 w1).1 = (s.fwdRequestAt i rq2 w2).1
-  | .nil, _, _, rq1, rq2, _, _, _, w1, w2 => by simp only [Subs.fwdRequestAt]
-  | .cons b n r, hp, 0, rq1, rq2, he, hk, hn, w1, w2 => by
-    simp only [Subs.PlainAll, Bool.and_eq_true] at hp
-    simp only [Subs.fwdRequestAt]; rw [Node.fwdRequest_treeK n hp.1 rq1 rq2 he hk hn w1 w2]
-  | .cons b n r, hp, i+1, rq1, rq2, he, hk, hn, w1, w2 => by
-    simp only [Subs.PlainAll, Bool.and_eq_true] at hp
-    simp only [Subs.fwdRequestAt]; rw [Subs.fwdRequestAt_treeK r hp.2 i rq1 rq2 he hk hn w1 w2]
-theorem Subs.fwdRequestAll_treeK : (s : Subs) → s.PlainAll = true → (rq1 rq2 : Req) → rq1.kind = rq2.kind →
-    rq1.kind.plain = true → rq1.kind ≠ .schedule → (w1 w2 : World U) →
-    (s.fwdRequestAll rq1 w1).1 = (s.fwdRequestAll rq2 w2).1
-  | .nil, _, rq1, rq2, _, _, _, w1, w2 => by simp only [Subs.fwdRequestAll]
-  | .cons b n r, hp, rq1, rq2, he, hk, hn, w1, w2 => by
-    simp only [Subs.PlainAll, Bool.and_eq_true] at hp
-    simp only [Subs.fwdRequestAll]
-    rw [Node.fwdRequest_treeK n hp.1 rq1 rq2 he hk hn w1 w2,
-      Subs.fwdRequestAll_treeK r hp.2 rq1 rq2 he hk hn _ (n.fwdRequest rq2 w2).2]
-end
-
-mutual
-theorem Node.fwdActive_treeK : (n : Node) → n.Plain = true → (rq1 rq2 : Req) → rq1.kind = rq2.kind →
-    rq1.kind.plain = true → rq1.kind ≠ .schedule → (w1 w2 : World U) →
-    (n.fwdActive rq1 w1).1 = (n.fwdActive rq2 w2).1
-  | .leaf id inj, _, rq1, rq2, _, _, _, w1, w2 => by simp only [Node.fwdActive]
-  | .compo id rid inj h st a r q m s, hp, rq1, rq2, he, hk, hn, w1, w2 => by
-    simp only [Node.Plain, Bool.and_eq_true] at hp
-    cases q with
-    | none =>
-      cases a with
-      | none => simp only [Node.fwdActive]
-      | some ai => simp only [Node.fwdActive]; rw [Subs.fwdActiveAt_treeK s hp.2 ai rq1 rq2 he hk hn w1 w2]
-    | some qi => simp only [Node.fwdActive]; rw [Subs.fwdRequestAt_treeK s hp.2 qi rq1 rq2 he hk hn w1 w2]
-  | .ortho id rid inj h s, hp, rq1, rq2, he, hk, hn, w1, w2 => by
-    simp only [Node.Plain] at hp
-    simp only [Node.fwdActive]; rw [Subs.fwdActiveBits_treeK s hp rq1 rq2 he hk hn w1 w2]
-theorem Subs.fwdActiveAt_treeK : (s : Subs) → s.PlainAll = true → (i : Nat) → (rq1 rq2 : Req) →
-    rq1.kind = rq2.kind → rq1.kind.plain = true → rq1.kind ≠ .schedule → (w1 w2 : World U) →
-    (s.fwdActiveAt i rq1 w1).1 = (s.fwdActiveAt i rq2 w2).1
-  | .nil, _, _, rq1, rq2, _, _, _, w1, w2 => by simp only [Subs.fwdActiveAt]
-  | .cons b n r, hp, 0, rq1, rq2, he, hk, hn, w1, w2 => by
-    simp only [Subs.PlainAll, Bool.and_eq_true] at hp
-    simp only [Subs.fwdActiveAt]; rw [Node.fwdActive_treeK n hp.1 rq1 rq2 he hk hn w1 w2]
-  | .cons b n r, hp, i+1, rq1, rq2, he, hk, hn, w1, w2 => by
-    simp only [Subs.PlainAll, Bool.and_eq_true] at hp
-    simp only [Subs.fwdActiveAt]; rw [Subs.fwdActiveAt_treeK r hp.2 i rq1 rq2 he hk hn w1 w2]
-theorem Subs.fwdActiveBits_treeK : (s : Subs) → s.PlainAll = true → (rq1 rq2 : Req) → rq1.kind = rq2.kind →
-    rq1.kind.plain = true → rq1.kind ≠ .schedule → (w1 w2 : World U) →
-    (s.fwdActiveBits rq1 w1).1 = (s.fwdActiveBits rq2 w2).1
-  | .nil, _, rq1, rq2, _, _, _, w1, w2 => by simp only [Subs.fwdActiveBits]
-  | .cons b n r, hp, rq1, rq2, he, hk, hn, w1, w2 => by
-    simp only [Subs.PlainAll, Bool.and_eq_true] at hp
-    simp only [Subs.fwdActiveBits]
-    split
-    · dsimp only
-      rw [Node.fwdActive_treeK n hp.1 rq1 rq2 he hk hn w1 w2,
-        Subs.fwdActiveBits_treeK r hp.2 rq1 rq2 he hk hn _ (n.fwdActive rq2 w2).2]
-    · dsimp only
-      rw [Subs.fwdActiveBits_treeK r hp.2 rq1 rq2 he hk hn w1 w2]
-end
+-- (`Node.request_treeK`, `Node.fwdRequest_treeK`, `Node.fwdActive_treeK`, `Mach.applyRequest_treeK`: the tree a request
+-- pass returns does not depend on the queue index either — Proofs/Replay.lean)
 
 /-! ### trees that differ in request marks only -/
 
@@ -442,27 +322,6 @@ end
 
 namespace Mach
 
-/-- On plain machines `applyRequest` computes the same tree whatever the world and the queue index. -/
-theorem applyRequest_treeK (m1 m2 : Mach U) (t : Transition) (i j : Nat) (hr : m1.root = m2.root)
-    (hp : m1.root.Plain = true) (hk : t.kind.plain = true) :
-    (m1.applyRequest t i).root = (m2.applyRequest t j).root := by
-  unfold applyRequest
-  dsimp only
-  rw [hr]
-  rw [hr] at hp
-  split
-  · split <;> rfl
-  · next k hns =>
-    have hn : t.kind ≠ .schedule := fun h => hns h
-    split
-    · exact Node.request_treeK m2.root hp ⟨t.kind, some i⟩ ⟨t.kind, some j⟩ rfl hk hn _ _
-    · split
-      · rfl
-      · next p _ =>
-        have hp' : (m2.root.mark p).1.Plain = true := by
-          rw [Node.Plain_of_frozen (Node.frozen_of_clearMarks (Node.mark_clearMarks m2.root p))]; exact hp
-        exact Node.fwdActive_treeK _ hp' ⟨t.kind, some i⟩ ⟨t.kind, some j⟩ rfl hk hn _ _
-
 theorem applyAll_treeK : (ts : List Transition) → (m1 m2 : Mach U) → (i j : Nat) → m1.root = m2.root →
     m1.w.cfg.stateCount = m2.w.cfg.stateCount → m1.root.Plain = true → (∀ t ∈ ts, t.kind.plain = true) →
     (m1.applyAll ts i).root = (m2.applyAll ts j).root
@@ -631,13 +490,15 @@ theorem roundsLog_nil_of_empty (initial : Bool) (fuel : Nat) (m : Mach U) (backu
 processes its queue; the log of the substitution loop is `a.stepLog`, the recorded history `approvedOf a.stepLog`
 (not empty).  Every record is `RoundOK`.  A replica `r` holding the same tree replays the history: it answers
 `true` and ends with exactly the authority's tree — active configuration AND resumable marks — whatever number
-of rounds were approved, vetoed or dropped in between. -/
+of rounds were approved, vetoed or dropped in between; its `previousTransitions` are the first `historyCap`
+entries of the history (the bounded copy drops the rest). -/
 theorem replay_reproduces_multi_round_step (a r : Mach U) (hroot : r.root = a.root)
     (hcfg : r.w.cfg.stateCount = a.w.cfg.stateCount) (hplain : a.root.Plain = true) (hnm : a.root.NoMarks)
     (hlog : ∀ rd ∈ a.stepLog, RoundOK a.w.cfg.stateCount rd) (happ : approvedOf a.stepLog ≠ []) :
     (r.replayTransitions (approvedOf a.stepLog)).2 = true ∧
     (r.replayTransitions (approvedOf a.stepLog)).1.root = a.processRequest.root ∧
-    (r.replayTransitions (approvedOf a.stepLog)).1.w.previous = approvedOf a.stepLog := by
+    (r.replayTransitions (approvedOf a.stepLog)).1.w.previous =
+      (approvedOf a.stepLog).take r.w.cfg.historyCap := by
   have hreq : a.stepStart.w.requests = a.w.requests := by
     unfold stepStart World.freshControl; exact World.clearTargets_requests _
   have hne : a.w.requests.isEmpty = false := by
@@ -661,11 +522,11 @@ theorem replay_reproduces_multi_round_step (a r : Mach U) (hroot : r.root = a.ro
   have hr0root : r0.root = a.root := by subst hr0; exact hroot
   have hr0cfg : r0.w.cfg.stateCount = a.w.cfg.stateCount := by
     subst hr0; show r.w.clearTargets.cfg.stateCount = _; rw [World.clearTargets_cfg]; exact hcfg
-  have hd : ∀ t ∈ ts, t.dest < a.w.cfg.stateCount := by
+  have hkd : ∀ t ∈ ts, t.kind.plain = true ∧ t.dest < a.w.cfg.stateCount := by
     intro t ht
     rw [← hts] at ht
     have : ∀ l : List (List Transition × Outcome), (∀ rd ∈ l, RoundOK a.w.cfg.stateCount rd) → t ∈ approvedOf l →
-        t.dest < a.w.cfg.stateCount := by
+        t.kind.plain = true ∧ t.dest < a.w.cfg.stateCount := by
       intro l
       induction l with
       | nil => intro _ h; simp only [approvedOf] at h; cases h
@@ -676,10 +537,12 @@ theorem replay_reproduces_multi_round_step (a r : Mach U) (hroot : r.root = a.ro
         rcases List.mem_append.mp h with h | h
         · by_cases ho : o = .approved
           · rw [if_pos ho] at h
-            exact ((hl _ List.mem_cons_self).1 ho t h).2
+            exact (hl _ List.mem_cons_self).1 ho t h
           · rw [if_neg ho] at h; cases h
         · exact ih (fun rd' h' => hl rd' (List.mem_cons_of_mem _ h')) h
     exact this _ hlog ht
+  have hd : ∀ t ∈ ts, t.dest < a.w.cfg.stateCount := fun t ht => (hkd t ht).2
+  have hk' : ∀ t ∈ ts, t.kind.plain = true := fun t ht => (hkd t ht).1
   have hloop := rounds_replay a.stepStart.w.cfg.substitutionLimit a.stepStart a.stepStart.root []
     ({ r0 with w := r0.w.freshControl } : Mach U) 0 (stepStart_sized a) rfl hr0root
     (by show r0.w.cfg.stateCount = a.stepStart.w.cfg.stateCount; rw [stepStart_cfg]; exact hr0cfg)
@@ -694,9 +557,7 @@ theorem replay_reproduces_multi_round_step (a r : Mach U) (hroot : r.root = a.ro
       rw [hcur] at this; exact happ this
     · exact h
   have happl : (r0.applyRequests ts).1.root = a.stepLoop.1.root := by
-    unfold applyRequests
-    dsimp only
-    rw [htree', applyAll_eq_foldl ts ({ r0 with w := r0.w.freshControl } : Mach U) 0
+    rw [applyRequests_root_plain r0 ts (by rw [hr0root]; exact hplain) hk', htree', applyAll_eq_foldl ts ({ r0 with w := r0.w.freshControl } : Mach U) 0
       (fun t ht => by show t.dest < r0.w.cfg.stateCount; rw [hr0cfg]; exact hd t ht)]
   have hfr : a.stepLoop.1.root.frozen = a.root.frozen := by
     unfold stepLoop
@@ -717,9 +578,11 @@ theorem replay_reproduces_multi_round_step (a r : Mach U) (hroot : r.root = a.ro
   rw [if_neg (by rw [hnil]; exact Bool.false_ne_true)]
   dsimp only
   rw [hr0]
-  generalize r0.applyRequests ts = res at happl hchg
+  have hcfg1 : (r0.applyRequests ts).1.w.cfg = r.w.cfg := by
+    rw [applyRequests_cfg]; subst hr0; exact World.clearTargets_cfg _
+  generalize r0.applyRequests ts = res at happl hchg hcfg1
   obtain ⟨r1, chg⟩ := res
-  dsimp only at happl hchg ⊢
+  dsimp only at happl hchg hcfg1 ⊢
   rw [hchg]
   simp only [if_true]
   refine ⟨trivial, ?_, ?_⟩
@@ -728,7 +591,7 @@ theorem replay_reproduces_multi_round_step (a r : Mach U) (hroot : r.root = a.ro
     rw [happl]
     congr 1
     exact Node.commit_tree _ _ _
-  · rw [updActivity_w]
+  · rw [updActivity_w, ← hcfg1]
     exact (Node.commit_steps _ _ _ (Steps.refl _)).frame.previous
 
 end Mach
